@@ -1,6 +1,10 @@
-/- line-protocol driver for C19: `drv_c19 <sub-command>` reads operations on stdin, prints one canonical line per operation.
+/- line-protocol driver for C19: `drv_c19 lex` (see Driver/LexCmd.lean for the operations).
    Core Lean only (nothing imported here may import Mathlib, or the executable will not link). -/
+import ChibiVerif.Driver.LexCmd
 
 def main (args : List String) : IO UInt32 := do
-  IO.eprintln s!"drv_c19: no sub-commands yet (args {args})"
-  return 2
+  match args with
+  | "lex" :: _ => ChibiVerif.Driver.lexMain
+  | _ =>
+    IO.eprintln "usage: drv_c19 lex"
+    return 2
